@@ -81,10 +81,10 @@ Proof.
   destruct (is_v4_mapped g0 g1 g2 g3 g4 g5); exact I.
 Qed.
 
-(* what maybeRecordObservation does, in terms of the spec's [counts] *)
+(* what maybeRecordObservation does, in terms of the spec's [counts] / [withdraws] *)
 Lemma record_counts : forall cfg st c oa,
   match counts cfg (closed st) c oa with
-  | None => record cfg st c oa = st
+  | None => record cfg st c oa = if withdraws cfg c oa then remove_conn cfg st c else st
   | Some (l, x) =>
       exists ci tl g, conn_info cfg c = Some ci /\ c_local ci = Some tl /\ tw_id tl = l /\
         observer_of (c_remote ci) = Some g /\
@@ -98,27 +98,31 @@ Lemma record_counts : forall cfg st c oa,
           end
   end.
 Proof.
-  intros cfg st c oa. unfold counts, record, should_record.
+  intros cfg st c oa. unfold counts, withdraws, content_counts, record, should_record.
   destruct (conn_info cfg c) as [ci|] eqn:Eci; [|reflexivity].
   destruct (zmem c (closed st)) eqn:Ecl.
-  - destruct (o_lb oa); [reflexivity|]. destruct (o_n64 oa); [reflexivity|].
-    destruct (o_relay oa); [reflexivity|]. destruct (c_local ci) as [tl|]; [|reflexivity].
-    destruct (negb (is_listen_tw cfg (tw_id tl))); [reflexivity|].
-    destruct (o_tw oa) as [tx|]; [|reflexivity].
-    destruct (consistent tl tx); reflexivity.
-  - destruct (o_lb oa); cbn [orb]; [reflexivity|]. destruct (o_n64 oa); cbn [orb]; [reflexivity|].
-    destruct (o_relay oa); cbn [orb]; [reflexivity|].
+  - destruct (o_lb oa); cbn [orb negb andb]; [reflexivity|].
+    destruct (o_n64 oa); cbn [orb negb andb]; [reflexivity|].
+    destruct (o_relay oa); cbn [orb negb andb]; [reflexivity|].
+    destruct (c_local ci) as [tl|]; [|reflexivity].
+    destruct (o_tw oa) as [tx|].
+    2:{ destruct (is_listen_tw cfg (tw_id tl)); reflexivity. }
+    destruct (is_listen_tw cfg (tw_id tl)); cbn [negb andb]; [|reflexivity].
+    destruct (consistent tl tx); cbn [negb]; reflexivity.
+  - destruct (o_lb oa); cbn [orb negb andb]; [reflexivity|].
+    destruct (o_n64 oa); cbn [orb negb andb]; [reflexivity|].
+    destruct (o_relay oa); cbn [orb negb andb]; [reflexivity|].
     destruct (c_local ci) as [tl|] eqn:Eloc; [|reflexivity].
     pose proof (group_of_observer (c_remote ci)) as Hgo.
     destruct (o_tw oa) as [tx|].
-    2:{ destruct (negb (is_listen_tw cfg (tw_id tl))); reflexivity. }
+    2:{ destruct (is_listen_tw cfg (tw_id tl)); reflexivity. }
     destruct (group_of (c_remote ci)) as [gr|]; destruct (observer_of (c_remote ci)) as [g|] eqn:Eobs;
       try contradiction.
     + destruct (is_listen_tw cfg (tw_id tl)); cbn [negb andb]; [|reflexivity].
-      destruct (consistent tl tx); [|reflexivity].
+      destruct (consistent tl tx); cbn [negb]; [|reflexivity].
       exists ci, tl, g. repeat split; try assumption; reflexivity.
-    + destruct (negb (is_listen_tw cfg (tw_id tl))); [reflexivity|].
-      destruct (consistent tl tx); reflexivity.
+    + destruct (is_listen_tw cfg (tw_id tl)); cbn [negb andb]; [|reflexivity].
+      destruct (consistent tl tx); cbn [negb]; reflexivity.
 Qed.
 
 Lemma b2n_b2z : forall b : bool, Z.of_nat (if b then 1%nat else 0%nat) = if b then 1 else 0.
@@ -139,13 +143,60 @@ Lemma filter_set_count : forall (f : Z * Z -> bool) c x co,
 Proof. intros. unfold set. cbn [filter]. destruct (f (c, x)); reflexivity. Qed.
 
 (* the step lemmas *)
+Lemma Inv_mark : forall cfg st m c, Inv cfg st m ->
+  Inv cfg (mark_closed st c) (mkMon (m_cred m) (mon_close (m_closed m) c)).
+Proof.
+  intros cfg st m c [Hcl Hcr Hval Hnd Hwf Hcnt].
+    constructor; cbn [mark_closed ext cobs closed m_cred m_closed]; try assumption.
+    unfold mon_close. rewrite Hcl. reflexivity.
+Qed.
+
+(* removeConn: the connection's credit is withdrawn, nothing else changes *)
+Lemma Inv_remove : forall cfg st m c, Inv cfg st m ->
+  Inv cfg (remove_conn cfg st c) (mkMon (del Z.eqb c (m_cred m)) (m_closed m)).
+Proof.
+  intros cfg st m c [Hcl Hcr Hval Hnd Hwf Hcnt].
+    unfold remove_conn.
+    pose proof Hcl as Hcl'.
+    destruct (get Z.eqb c (cobs st)) as [x|] eqn:Eg.
+    + pose proof (Hval c x (get_In Z.eqb zeqb_spec _ _ _ Eg)) as [ci [tl [g [Eci [Eloc Eobs]]]]].
+      rewrite Eci, Eloc, Eobs.
+      assert (Hpos : 1 <= cnt (ext st) (tw_id tl) x g).
+      { rewrite Hcnt. rewrite (count_del Z.eqb zeqb_spec _ c x (cobs st) Hnd Eg).
+        pose proof (credits_delta cfg c ci tl g x (tw_id tl) x g Eci Eloc Eobs) as D.
+        unfold delta in D. rewrite !Z.eqb_refl in D.
+        rewrite (proj2 (observer_eqb_spec g g) eq_refl) in D. cbn [andb] in D.
+        destruct (credits cfg (tw_id tl) x g (c, x)); [lia|discriminate]. }
+      constructor; cbn [ext cobs closed m_cred m_closed].
+      * exact Hcl'.
+      * rewrite cred_of_del, <- Hcr. reflexivity.
+      * intros c2 x2 H. apply (In_del Z.eqb zeqb_spec) in H. apply (Hval c2 x2), H.
+      * apply (NoDup_keys_del Z.eqb zeqb_spec), Hnd.
+      * apply wf_ext_remove, Hwf.
+      * intros l' x' g'. rewrite cnt_remove by exact Hpos. rewrite Hcnt.
+        rewrite (count_del Z.eqb zeqb_spec (credits cfg l' x' g') c x (cobs st) Hnd Eg).
+        rewrite Nat2Z.inj_add, b2n_b2z.
+        rewrite (credits_delta cfg c ci tl g x l' x' g' Eci Eloc Eobs). lia.
+    + assert (Hnot : ~ In c (keys (cobs st))) by (apply (get_None_notin Z.eqb zeqb_spec), Eg).
+      constructor; cbn [ext cobs closed m_cred m_closed]; try assumption.
+      rewrite Hcr, <- cred_of_del, (del_notin Z.eqb zeqb_spec c (cobs st) Hnot). reflexivity.
+Qed.
+
+Lemma Inv_disconnect : forall cfg st m c, Inv cfg st m ->
+  Inv cfg (disconnect cfg st c) (mon_disconnect m c).
+Proof.
+  intros cfg st m c HI. unfold disconnect, mon_disconnect.
+  apply (Inv_remove cfg (mark_closed st c) (mkMon (m_cred m) (mon_close (m_closed m) c)) c).
+  apply Inv_mark, HI.
+Qed.
+
 Lemma Inv_observe : forall cfg st m c oa, Inv cfg st m ->
   Inv cfg (record cfg st c oa) (mon_observe cfg m c oa).
 Proof.
-  intros cfg st m c oa [Hcl Hcr Hval Hnd Hwf Hcnt]. unfold mon_observe.
+  intros cfg st m c oa HI. pose proof HI as [Hcl Hcr Hval Hnd Hwf Hcnt]. unfold mon_observe.
     rewrite Hcl. pose proof (record_counts cfg st c oa) as R.
     destruct (counts cfg (closed st) c oa) as [[l x]|].
-    2:{ rewrite R. constructor; assumption. }
+    2:{ rewrite R. destruct (withdraws cfg c oa); [rewrite <- Hcl; apply Inv_remove, HI|exact HI]. }
     destruct R as [ci [tl [g [Eci [Eloc [El [Eobs R]]]]]]]. rewrite R. clear R.
     assert (Eltw : ltw_of cfg c = l) by (unfold ltw_of; rewrite Eci, Eloc; exact El).
     rewrite Hcr, get_cred_of.
@@ -187,45 +238,6 @@ Proof.
         rewrite Nat2Z.inj_add, b2n_b2z.
         rewrite (credits_delta cfg c ci tl g x l' x' g' Eci Eloc Eobs).
         rewrite El. lia.
-Qed.
-
-Lemma Inv_mark : forall cfg st m c, Inv cfg st m ->
-  Inv cfg (mark_closed st c) (mkMon (m_cred m) (mon_close (m_closed m) c)).
-Proof.
-  intros cfg st m c [Hcl Hcr Hval Hnd Hwf Hcnt].
-    constructor; cbn [mark_closed ext cobs closed m_cred m_closed]; try assumption.
-    unfold mon_close. rewrite Hcl. reflexivity.
-Qed.
-
-Lemma Inv_disconnect : forall cfg st m c, Inv cfg st m ->
-  Inv cfg (disconnect cfg st c) (mon_disconnect m c).
-Proof.
-  intros cfg st m c [Hcl Hcr Hval Hnd Hwf Hcnt]. unfold disconnect, mon_disconnect.
-    unfold remove_conn. cbn [mark_closed ext cobs closed].
-    assert (Hcl' : mon_close (m_closed m) c = (if zmem c (closed st) then closed st else c :: closed st))
-      by (unfold mon_close; rewrite Hcl; reflexivity).
-    destruct (get Z.eqb c (cobs st)) as [x|] eqn:Eg.
-    + pose proof (Hval c x (get_In Z.eqb zeqb_spec _ _ _ Eg)) as [ci [tl [g [Eci [Eloc Eobs]]]]].
-      rewrite Eci, Eloc, Eobs.
-      assert (Hpos : 1 <= cnt (ext st) (tw_id tl) x g).
-      { rewrite Hcnt. rewrite (count_del Z.eqb zeqb_spec _ c x (cobs st) Hnd Eg).
-        pose proof (credits_delta cfg c ci tl g x (tw_id tl) x g Eci Eloc Eobs) as D.
-        unfold delta in D. rewrite !Z.eqb_refl in D.
-        rewrite (proj2 (observer_eqb_spec g g) eq_refl) in D. cbn [andb] in D.
-        destruct (credits cfg (tw_id tl) x g (c, x)); [lia|discriminate]. }
-      constructor; cbn [ext cobs closed m_cred m_closed].
-      * exact Hcl'.
-      * rewrite cred_of_del, <- Hcr. reflexivity.
-      * intros c2 x2 H. apply (In_del Z.eqb zeqb_spec) in H. apply (Hval c2 x2), H.
-      * apply (NoDup_keys_del Z.eqb zeqb_spec), Hnd.
-      * apply wf_ext_remove, Hwf.
-      * intros l' x' g'. rewrite cnt_remove by exact Hpos. rewrite Hcnt.
-        rewrite (count_del Z.eqb zeqb_spec (credits cfg l' x' g') c x (cobs st) Hnd Eg).
-        rewrite Nat2Z.inj_add, b2n_b2z.
-        rewrite (credits_delta cfg c ci tl g x l' x' g' Eci Eloc Eobs). lia.
-    + assert (Hnot : ~ In c (keys (cobs st))) by (apply (get_None_notin Z.eqb zeqb_spec), Eg).
-      constructor; cbn [ext cobs closed m_cred m_closed]; try assumption.
-      rewrite Hcr, <- cred_of_del, (del_notin Z.eqb zeqb_spec c (cobs st) Hnot). reflexivity.
 Qed.
 
 Lemma Inv_step : forall cfg st m o, Inv cfg st m ->
